@@ -3,6 +3,7 @@
 package websocket
 
 import (
+	"github.com/aukilabs/hagall-common/messages/dagazpb"
 	"github.com/aukilabs/hagall-common/messages/hagallpb"
 	hwebsocket "github.com/aukilabs/hagall-common/websocket"
 	"github.com/aukilabs/hagall/internal/verifnd"
@@ -223,4 +224,47 @@ func c04Step(sh stepShape, lo, hi int) {
 	verifnd.Observe("c04", uint64(kind), uint64(nAns), uint64(uint32(gotCode)))
 	verifnd.Reach("C04.step.done")
 	verifnd.Reach("C04.kind." + kn)
+}
+
+// VerifC04DagazQueries: the three ground-plane queries and the sample message (concrete coordinates, symbolic
+// request id): each query is answered exactly once with its matching response echoing the id; a sample with
+// nothing; from an unjoined connection nothing at all.
+func VerifC04DagazQueries() {
+	w := newVWorld(vModDagaz)
+	c, other := w.newConn(), w.newConn()
+	other.mustJoin("")
+	joined := verifnd.Bool()
+	if joined {
+		c.mustJoin(other.sid)
+	}
+	w.drainAll()
+	rid := verifnd.U32()
+	pt := func(x, z float32) *dagazpb.Point { return &dagazpb.Point{X: x, Y: 0, Z: z} }
+	kind := verifnd.Choice(4)
+	var want int32
+	switch kind {
+	case 0:
+		c.do(&dagazpb.DagazQuadSample{Type: dagazpb.MsgType_MSG_TYPE_DAGAZ_QUAD_SAMPLE, Timestamp: vts(), Samples: []*dagazpb.Quad{{Center: pt(0.5, 0.5), Extents: pt(0.25, 0.25)}}})
+	case 1:
+		want = 302
+		c.do(&dagazpb.DagazGetGroundPlaneRequest{Type: dagazpb.MsgType_MSG_TYPE_DAGAZ_GET_GROUND_PLANE_REQUEST, Timestamp: vts(), RequestId: rid, Ray: &dagazpb.Ray{From: &dagazpb.Point{X: 0.5, Y: 1, Z: 0.5}, To: &dagazpb.Point{X: 0.5, Y: -1, Z: 0.5}}})
+	case 2:
+		want = 304
+		c.do(&dagazpb.DagazGetRegionRequest{Type: dagazpb.MsgType_MSG_TYPE_DAGAZ_GET_REGION_REQUEST, Timestamp: vts(), RequestId: rid, Min: pt(-1, -1), Max: pt(3, 3)})
+	case 3:
+		want = 306
+		c.do(&dagazpb.DagazGetDebugInfoRequest{Type: dagazpb.MsgType_MSG_TYPE_DAGAZ_GET_DEBUG_INFO_REQUEST, RequestId: rid})
+	}
+	got := c.drain()
+	if !joined || want == 0 {
+		verifnd.Assert(len(got) == 0, "C04.dagaz.silent", kindName(kQuadSample+kind))
+	} else {
+		verifnd.Assert(len(got) == 1 && typeNum(got[0]) == want, "C04.dagaz.answered_once_with_matching_response", kindName(kQuadSample+kind))
+		if len(got) == 1 {
+			r, ok := ridOf(got[0])
+			verifnd.Assert(ok && r == rid, "C04.dagaz.echoes_request_id", kindName(kQuadSample+kind))
+		}
+	}
+	verifnd.Assert(len(other.drain()) == 0, "C04.dagaz.answer_only_to_requester")
+	verifnd.Reach("C04.dagaz.done")
 }
